@@ -25,6 +25,7 @@ type C15Case struct {
 	AppHandler string `json:"app_handler"` // the application's own EventLogout handler: none | true | false (its return value)
 	EndStep    int    `json:"end_step"`    // index of the peer Logout / local Logout / Stop step
 	AnswerStep int    `json:"answer_step"` // index of the peer's answering Logout (-1: none)
+	Probed     bool   `json:"probed"`      // local endings: the peer has been silent long enough for the session to have sent its TestRequest; the local Logout()/Stop() comes while that is unanswered
 }
 
 func genC15(t *rapid.T) *C15Case {
@@ -57,6 +58,16 @@ func genC15(t *rapid.T) *C15Case {
 	add(rig.Step{Op: "in", In: g.goodLogon(0)})
 	filler(rapid.IntRange(0, 4).Draw(t, "prefix"), "pre")
 	timeout := time.Duration(cfg.CloseTimeoutMs) * time.Millisecond
+	probeFirst := func() {
+		if rapid.IntRange(0, 3).Draw(t, "probedFirst") == 0 {
+			// the peer is silent until the session has sent its TestRequest; with N >= 40 s
+			// the second period is longer than any close timeout, so the probe's own
+			// deadline cannot interfere with the ending
+			T := int64(tolT(g.hb))
+			add(rig.Step{Op: "advance", Dt: T + T/10 + 1e6})
+			c.Probed = true
+		}
+	}
 	switch c.Ending {
 	case "peer-logout":
 		if rapid.IntRange(0, 2).Draw(t, "probeFirst") == 0 {
@@ -67,6 +78,7 @@ func genC15(t *rapid.T) *C15Case {
 		}
 		c.EndStep = add(rig.Step{Op: "in", In: g.logout()})
 	case "local-logout":
+		probeFirst()
 		c.EndStep = add(rig.Step{Op: "logout"})
 		if rapid.Bool().Draw(t, "between") {
 			add(rig.Step{Op: "in", In: g.heartbeat("")})
@@ -85,6 +97,7 @@ func genC15(t *rapid.T) *C15Case {
 		}
 		c.AnswerStep = add(rig.Step{Op: "in", In: g.logout()})
 	case "stop":
+		probeFirst()
 		c.EndStep = add(rig.Step{Op: "stop"})
 		kinds := []string{"never", "immediately", "reactive", "reactive", "half", "just-before", "after"}
 		if timeout <= time.Millisecond {
@@ -160,7 +173,7 @@ func checkC15(c *C15Case, rec *evid.Rec) (vs []pbt.Violation) {
 	}
 	timeout := time.Duration(c.Cfg.CloseTimeoutMs) * time.Millisecond
 	end := tr.Steps[c.EndStep]
-	if !tr.Steps[c.EndStep-1].Logged && c.EndStep > 0 && c.AnswerKind != "after-probe" {
+	if !tr.Steps[c.EndStep-1].Logged && c.EndStep > 0 && c.AnswerKind != "after-probe" && !c.Probed {
 		// the prefix must leave the session logged on
 		return []pbt.Violation{pbt.V("harness:not-logged", "prefix did not leave the session logged on")}
 	}
@@ -220,6 +233,9 @@ func checkC15(c *C15Case, rec *evid.Rec) (vs []pbt.Violation) {
 	rec.Hist("app-logout-handler:" + c.AppHandler)
 	rec.Hist(fmt.Sprintf("close-timeout-ms=%d", c.Cfg.CloseTimeoutMs))
 	rec.Hist("role:" + c.Cfg.Role)
+	if c.Probed {
+		rec.Hist("local-ending-while-own-testrequest-unanswered:" + c.Ending)
+	}
 	if rec.WantSample() && nontrivial {
 		rec.Sample(map[string]any{"ending": c.Ending, "answer": c.AnswerKind, "history": showScript(&c.Script)})
 	}
